@@ -900,3 +900,134 @@ class Gowin5(Family):
 
     def used_nontrivially(self, dec):
         return dict(input_div_gt1=int(dec[0] > 1))
+
+
+# =====================================================================================================================
+# Oscillators with one programmable divider (no PLL): the "configuration" is the divider
+class NXOsc(Family):
+    """NXOSCA: 450 MHz / (div + 1), div in range(*clk_hf_div_range), for the HFCLKOUT and the HFSDCOUT outputs.
+    Request: one output per flag, flags name the outputs ("hf", "sdc") in the order they are created."""
+    prims = ("OSCA",)
+    has_phase = False
+
+    def drive(self, variant, req, timeout=60):
+        r = Result()
+        _tracer.classname_to_objs.clear()
+        _tracer.name_to_idx.clear()
+        try:
+            with watchdog(timeout), contextlib.redirect_stdout(io.StringIO()):
+                osc = self.cls()
+                r.pll = osc
+                r.stage = "clkout"
+                for i, ((f, p, m), which) in enumerate(zip(req.outs, req.flags)):
+                    (osc.create_hf_clk if which == "hf" else osc.create_hfsdc_clk)(ClockDomain("c20_%d" % i), f, margin=m)
+                r.stage = "finalize"
+                orig, got = osc.compute_divisor, []
+
+                def capture(*a, **k):
+                    r.stage = "search"
+                    r.searched = True
+                    v = orig(*a, **k)
+                    got.append(v)
+                    r.stage = "finalize"
+                    return v
+                osc.compute_divisor = capture
+                osc.do_finalize()
+                # do_finalize asks for the HF divisor first, then the SDC one
+                order = [w for w in ("hf", "sdc") if w in req.flags]
+                r.config = dict(zip(order, got)) if len(got) == len(order) else dict(calls=got)
+                r.stage = "done"
+        except Timeout:
+            raise
+        except Exception as e:
+            r.exc = e
+        return r
+
+    def in_range(self, pll, req):
+        return all(_rng_has(pll.clk_hf_freq_range, f) for f, p, m in req.outs)
+
+    def model(self, pll, req):
+        lo, hi = pll.clk_hf_div_range
+        divs = Arith(fr(lo) + 1, 1, hi - lo)
+        src = fr(pll.clk_hf_freq)
+        one = Explicit([1])
+        return Model(src, one, one, (src, src), [Out(f, m, divs) for f, p, m in req.outs], chain=lambda fin, D, M, s: [s])
+
+    def decode(self, pll, cfg, req):
+        ds, bad = [], []
+        for which in req.flags:
+            v = cfg.get(which)
+            try:
+                ds.append(int(v) + 1)
+            except (TypeError, ValueError):
+                bad.append(("config.missing", "no divisor for output %r: %r" % (which, cfg)))
+                ds.append(None)
+        return 1, 1, ds, bad
+
+    def check_instance(self, pll, cfg, req, dec):
+        P, O, I, of = inst_params(pll, self.prims)
+        bad = []
+        names = dict(hf=("HF_CLK_DIV", "HFCLKOUT", "hf_clk_out"), sdc=("HF_SED_SEC_DIV", "HFSDCOUT", "hfsdc_clk_out"))
+        for which in req.flags:
+            par, port, attr = names[which]
+            if P.get(par) != cfg.get(which):
+                bad.append(("inst." + par, "OSCA.%s = %r but the computed divisor is %r" % (par, P.get(par), cfg.get(which))))
+            if O.get(port) is not getattr(pll, attr)[0]:
+                bad.append(("inst.port", "%s is not the requested output signal" % port))
+        return bad
+
+
+class GowinOsc(Family):
+    """GW1NOSC(device, freq, margin): the constructor picks FREQ_DIV in range(*osc_div_range) and emits the OSC primitive;
+    there is no separate configuration object, the emitted FREQ_DIV is the configuration.  The oscillator frequency is a
+    local of the constructor: 250 MHz, 210 MHz on the GW1N-4 family (datasheet values mirrored here)."""
+    prims = ("OSC",)
+    has_phase = False
+    DEVICES = [("GW1NR-9", 250e6), ("GW1N-4", 210e6)]
+
+    def variants(self):
+        return [(d, dict(device=d)) for d, f in self.DEVICES]
+
+    def drive(self, variant, req, timeout=60):
+        r = Result()
+        _tracer.classname_to_objs.clear()
+        _tracer.name_to_idx.clear()
+        self._src = dict(self.DEVICES)[variant[1]["device"]]
+        r.pll = self.cls                      # range attributes live on the class; no object exists after a refusal
+        r.stage = "search"
+        r.searched = True
+        try:
+            with watchdog(timeout):
+                (f, p, m), = req.outs
+                osc = self.cls(variant[1]["device"], f, margin=m)
+                r.pll = osc
+                P, O, I, of = inst_params(osc, self.prims)
+                r.config = dict(FREQ_DIV=P.get("FREQ_DIV"), DEVICE=P.get("DEVICE"))
+                r.stage = "done"
+        except Timeout:
+            raise
+        except Exception as e:
+            r.exc = e
+        return r
+
+    def model(self, pll, req):
+        src = fr(self._src)
+        one = Explicit([1])
+        return Model(src, one, one, (src, src), [Out(f, m, Arith.from_range(pll.osc_div_range)) for f, p, m in req.outs],
+                     chain=lambda fin, D, M, s: [s])
+
+    def decode(self, pll, cfg, req):
+        d = cfg.get("FREQ_DIV")
+        if not isinstance(d, int):
+            return None, None, [], [("config.missing", "no integer FREQ_DIV on the OSC instance: %r" % cfg)]
+        return 1, 1, [d], []
+
+    def check_instance(self, pll, cfg, req, dec):
+        bad = []
+        if cfg.get("DEVICE") != self._dev(pll):
+            bad.append(("inst.DEVICE", "OSC.DEVICE = %r" % cfg.get("DEVICE")))
+        return bad
+
+    def _dev(self, pll):
+        P, O, I, of = inst_params(pll, self.prims)
+        return P.get("DEVICE")
